@@ -123,21 +123,21 @@ func c12Scenarios(tier string) []Scenario {
 			}
 		}
 	}
-	// bound-1 schedules on a subset (thorough: all small ones)
-	stride := 16
+	// preemption-bounded schedules: every scenario with at most 3 tries also at bound 1 (quick) / 2 (thorough)
+	b := 1
 	if tier == "thorough" {
-		stride = 2
+		b = 2
 	}
 	n := len(out)
-	for i := 0; i < n; i += stride {
+	for i := 0; i < n; i++ {
 		cs := out[i].(*clientScen)
-		if cs.s.Tries < 0 || cs.s.Tries > 3 {
+		if cs.s.Tries < 0 || cs.s.Tries > 3 || cs.s.T > 10 {
 			continue
 		}
 		cp := *cs.s
-		cp.Bound = 1
-		cp.Name = fmt.Sprintf("c12-b1-%04d", i)
-		out = append(out, &clientScen{s: &cp, fam: cs.fam + "-bound1"})
+		cp.Bound = b
+		cp.Name = fmt.Sprintf("c12-b%d-%04d", b, i)
+		out = append(out, &clientScen{s: &cp, fam: cs.fam + "-bounded"})
 	}
 	return out
 }
